@@ -10,7 +10,8 @@ RULE = ("ent -> t81: every Huffman- or arithmetic-coded DCT stream the real comp
         "equal libjpeg-turbo's.  t81enc -> t81c: the Lean writer (sequential Huffman, Annex K tables, table identifiers 0-3 in any "
         "rotation, several tables per DQT/DHT, 16-bit DQT, fill bytes, DRI before DQT / after SOF / before SOS, sampling factors such as "
         "3x1 1x3 2x2+1x2, one scan per component or interleaved, restart intervals) produces streams libjpeg-turbo never writes; "
-        "jpeg_read_coefficients must accept them without warning and return exactly the writer's coefficients")
+        "jpeg_read_coefficients must accept them without warning and return exactly the writer's coefficients.  seqfile: whole baseline "
+        "files written by the real compressor must equal, byte for byte, the Lean writer's output when it is configured like jcmarker.c")
 TRUSTED = ["Model.T81 (decoder) and Model.T81Enc (writer) are written from the text of T.81, not from libjpeg-turbo; each is checked "
            "against the other and against the real codec on every generated stream",
            "the reader decodes arithmetic-coded streams with an executable model of the QM decoder (Model/Arith.lean, no theorems about it); lossless streams are outside this check (C02)"]
@@ -22,6 +23,8 @@ HV = [[11], [11, 11, 11], [21, 11, 11], [22, 11, 11], [12, 11, 11], [41, 11, 11]
 
 def classify(op, R):
     p = op.split(" ")
+    if p[0] == "seqfile":
+        return "seqfile:nc%s:%sx%s:ri%s" % (p[7], p[5], p[6], "0" if p[4] == "0" else "1")
     if p[0] == "t81enc":
         return "t81enc:f%s:hv%s:ri%s" % (p[5], "".join(p[6:]), "0" if p[4] == "0" else "1")
     if p[0] in ("t81", "t81c"):
@@ -45,6 +48,12 @@ def gen_ops(rng, tier):
         if sum((x // 10) * (x % 10) for x in hv) > 10: fl |= 8
         ops.append("t81enc %d %d %d %d %d %s" % (rng.randrange(1 << 30), rng.choice([rng.randint(1, 60), 8, 16, 33]), rng.choice([rng.randint(1, 50), 8, 17]),
                                                  rng.choice([0, 0, 1, 2, 3, 7, 8, 40]), fl, " ".join(map(str, hv))))
+    # whole files, byte for byte: what jcmarker.c + jchuff.c write for baseline files (quality 75) vs the Lean writer configured the
+    # same way (SOI, JFIF APP0, one DQT per table, SOF0, one DHT per table in scan order, DRI, SOS, data, EOI)
+    for i in range(900 if big else 160):
+        nc = rng.choice([1, 3, 3, 3])
+        hs, vs = rng.choice([(1, 1), (2, 1), (2, 2), (1, 2), (4, 1), (1, 4), (2, 1), (2, 2)]) if nc == 3 else (1, 1)
+        ops.append("seqfile %d %d %d %d %d %d %d" % (rng.randrange(1 << 30), rng.randint(1, 70), rng.randint(1, 50), rng.choice([0, 0, 1, 2, 3, 7, 8, 9, 50]), hs, vs, nc))
     return ops
 
 
